@@ -112,6 +112,81 @@ fn schedules(r: &mut Report, rng: &mut Rng, n: u64) {
     }
 }
 
+/// The shared cache directory: each invocation acquires the real `Cache` on one directory (an
+/// exclusive lock on its lock file), fetches crates.io metadata for its own crate through the
+/// mock network — which lands in the in-memory crates.io cache — and drops the cache, which writes
+/// the cache files back.  Serialised invocations leave every crate in crates-io-cache.json; an
+/// invocation that read the file before another one wrote it would lose that other entry.
+fn cache_schedules(r: &mut Report, rng: &mut Rng, n: u64) {
+    let names: Vec<String> = (0..6).map(|i| format!("cachecrate{i}")).collect();
+    let mut remote = cmd::Remote::default();
+    for nm in &names {
+        remote.registry.insert(nm.clone(), vec![cmd::RegVersion { version: semver::Version::new(1, 0, 0), user: Some(1), day: 0 }]);
+    }
+    remote.install();
+    for i in 0..n {
+        let root = std::env::var("VERIF_WORK").map(PathBuf::from).unwrap_or_else(|_| std::env::temp_dir());
+        let dir = std::sync::Arc::new(tempfile::Builder::new().prefix("vetc18cache").tempdir_in(root).unwrap());
+        let k = rng.range(2, 6);
+        let plan: Vec<(u64, u64)> = (0..k).map(|_| (rng.below(10) as u64, rng.below(10) as u64)).collect();
+        r.evaluations += 1;
+        let errors = std::sync::Arc::new(std::sync::Mutex::new(Vec::<String>::new()));
+        let base = base_project();
+        let cfg0 = std::sync::Arc::new(base.cfg(&[]));
+        let mut handles = Vec::new();
+        for (id, think) in plan.iter().cloned().enumerate() {
+            let dir = dir.clone();
+            let errors = errors.clone();
+            let name = names[id].clone();
+            let cfg0 = cfg0.clone();
+            handles.push(std::thread::spawn(move || {
+                let _enter = TEST_RUNTIME.enter();
+                std::thread::sleep(std::time::Duration::from_millis(think.0));
+                let pc = PartialConfig {
+                    cli: { let crate::cli::FakeCli::Vet(cli) = crate::cli::FakeCli::try_parse_from(["cargo", "vet"]).unwrap(); cli },
+                    now: mock_now(),
+                    cache_dir: dir.path().join("cache-root"),
+                    mock_cache: false,
+                };
+                let res = guarded(|| -> Result<(), String> {
+                    let network = Network::acquire(&cfg0).ok_or("no network")?;
+                    let cache = crate::storage::Cache::acquire(&pc).map_err(|e| format!("acquire: {e:?}"))?;
+                    std::thread::sleep(std::time::Duration::from_millis(think.1));
+                    tokio::runtime::Handle::current().block_on(cache.crates_io_info(Some(&network), &name)).map_err(|e| format!("info: {e:?}"))?;
+                    drop(cache);
+                    Ok(())
+                });
+                match res {
+                    Ok(Ok(())) => {}
+                    Ok(Err(e)) => errors.lock().unwrap().push(format!("invocation {id}: {e}")),
+                    Err(p) => errors.lock().unwrap().push(format!("invocation {id} panicked: {p}")),
+                }
+            }));
+        }
+        for h in handles {
+            let _ = h.join();
+        }
+        let case = format!("cache-schedule#{i}: {plan:?}");
+        r.oracle_checked += 1;
+        let errs = errors.lock().unwrap().clone();
+        if !errs.is_empty() {
+            r.fail("oracle", "C18/cache-error-under-concurrency", format!("{errs:?}").chars().take(600).collect(), &case);
+            continue;
+        }
+        let text = fs::read_to_string(dir.path().join("cache-root").join("crates-io-cache.json")).unwrap_or_default();
+        let missing: Vec<&String> = names.iter().take(k).filter(|nm| !text.contains(nm.as_str())).collect();
+        if !missing.is_empty() {
+            r.fail("oracle", "C18/cache-lost-update", format!("invocations that fetched {missing:?} finished without error but the final crates.io cache file does not hold their entries"), &case);
+        }
+        if serde_json::from_str::<serde_json::Value>(&text).is_err() {
+            r.fail("oracle", "C18/cache-file-corrupt", "the final crates.io cache file is not valid JSON".into(), &case);
+        }
+        r.nontrivial(&case);
+        r.count(&format!("cache-threads:{k}"));
+    }
+    *crate::network::VERIF_MOCK_NETWORK.lock().unwrap() = None;
+}
+
 /// child mode (run under strace): one real invocation on the directory in VERIF_C18_DIR
 pub fn child() {
     let dir = std::env::var("VERIF_C18_DIR").unwrap();
@@ -284,9 +359,10 @@ fn traces(r: &mut Report, n: u64) {
 
 pub fn run(r: &mut Report) {
     let (shard, nshards) = shard();
-    r.rule = "schedules = 2..6 real threads (readers that drop, writers that commit) with random think times before load and between load and commit on one store directory; traces = one real invocation under strace abstracted to open/flock/read/write/truncate/close on the three store files; non-trivial = at least two invocations of which one commits (schedules), every trace; distinct by schedule / trace".into();
+    r.rule = "cache schedules = 2..6 real threads each acquiring the real Cache on one directory, fetching its own crate's crates.io metadata and dropping the cache (final crates-io-cache.json must hold every entry); schedules = 2..6 real threads (readers that drop, writers that commit) with random think times before load and between load and commit on one store directory; traces = one real invocation under strace abstracted to open/flock/read/write/truncate/close on the three store files; non-trivial = at least two invocations of which one commits (schedules), every trace; distinct by schedule / trace".into();
     let mut rng = Rng::new(r.seed.wrapping_add(shard.wrapping_mul(49979687)) ^ 0xC18);
     let n = if r.thorough() { 2400 } else { 320 } / nshards;
     schedules(r, &mut rng, n.max(4));
     traces(r, if r.thorough() { 12 } else { 6 });
+    cache_schedules(r, &mut rng, (n / 4).max(4));
 }
